@@ -1,4 +1,5 @@
 import BronVerif.Model.Util
+import BronVerif.Model.Draws
 /-!
 # Which party's randomness a protocol message / joint value depends on (property C07)
 
@@ -21,8 +22,19 @@ are *demanded by the property* (`expect`):
   depend on goroutine scheduling even for identical streams);
 * everything else is the model's exact prediction, mirrored (a difference is a correspondence
   failure, not a property violation).
+
+Per protocol the table also carries
+* `need`: the consumption specification (see `Model/Draws.lean`) — per party and executed step which
+  secrets are drawn, once and once per peer;
+* `publicLeaves`: the long leaves (byte strings of ≥ 16 bytes) of a party's OWN messages that
+  legitimately do not depend on its stream (public key shares, session identifiers, the previous MSP,
+  the identity point heading the verification vector of a sharing of zero); every other long leaf of
+  the changed party's messages must change with its stream;
+* `sharedLeaves`: patterns of long unicast leaves that may coincide for two recipients (none so far:
+  everything a party sends to one peer only is per-recipient secret material).
 -/
 namespace BronVerif.Joint
+open BronVerif.Draws
 
 /-- what a value is a function of -/
 inductive Dep where
@@ -32,6 +44,7 @@ inductive Dep where
   | pair      -- the streams of sender and recipient
   | all       -- every party's stream
   | among (xs : List Nat)  -- the streams of the parties `xs` (the contributing parties)
+  | ownMaybe (xs : List Nat)  -- the sender's stream, and possibly (depending on the recipient's MSP row) those of `xs`
   deriving DecidableEq, Repr
 
 /-- does a value with dependency `d`, owned/sent by `s` (to `t`), change when only `c`'s stream does? -/
@@ -43,6 +56,7 @@ def Dep.changes (d : Dep) (s t c : Nat) : Bool :=
   | .pair => s == c || t == c
   | .all => true
   | .among xs => xs.contains c
+  | .ownMaybe xs => s == c || xs.contains c
 
 /-- does the sender's own stream enter the value? -/
 def Dep.usesOwn : Dep → Bool
@@ -125,10 +139,12 @@ def Slot.expect (s : Slot) (c : Nat) : Exp :=
   else if s.first then
     (match s.dep with
      | .ownSched => .free
+     | .ownMaybe xs => if xs.contains c then .free else .mustSame
      | d => if d.changes s.from_ s.to c then .change else .mustSame)
   else
     (match s.dep with
      | .ownSched => .free
+     | .ownMaybe xs => if xs.contains c then .free else .same
      | d => if d.changes s.from_ s.to c then .change else .same)
 
 /-- a joint output: name, owner (0 = nobody in particular), dependency, and whether the property
@@ -151,7 +167,53 @@ structure Spec where
       (constructor first): '0' no bytes, '1' bytes drawn, 'S' bytes drawn and the step samples a secret
       the property names (zero bytes there is a violation) -/
   reads : Nat → String
+  /-- number of peers of party `id` (scales the per-peer part of `need`) -/
+  peers : Nat → Nat := fun _ => 0
+  /-- consumption specification of party `id`, one entry per executed step (constructor first);
+      the first argument is the number of columns of the MSP that is dealt under -/
+  need : Nat → Nat → List StepNeed := fun _ _ => []
+  /-- long leaves `r<round>.<b|u>:<path>` of a party's own messages that do not depend on its stream;
+      an entry ending in `*` is a prefix -/
+  publicLeaves : List String := []
+  /-- patterns `<path with # for indices>` of long unicast leaves that may repeat across recipients -/
+  sharedLeaves : List String := []
   deriving Inhabited
+
+/-! ## Building blocks of the consumption tables
+
+Sizes follow the library: a uniformly random scalar of k256 / p256 / ed25519 is reduced from 48 bytes
+(`wide`); commitment keys, witnesses and session contributions are 32 raw bytes. -/
+
+/-- a uniformly random scalar: 48 bytes read, 32 bytes of entropy needed -/
+def scalar (what : String) (count : Nat := 1) : Draw := { what, count, size := 48, min := 32 }
+/-- a scalar that is read and then discarded / overwritten (no entropy demanded) -/
+def wasted (what : String) (count : Nat := 1) : Draw := { what, count, size := 48, min := 0 }
+/-- `n` raw random bytes -/
+def rawBytes (what : String) (n : Nat) (count : Nat := 1) : Draw := { what, count, size := n, min := n }
+
+/-- `kw.Scheme.Deal(secret)` under an MSP with `d` columns: a random column of `d` scalars whose first
+    entry is then overwritten by the secret -/
+def dealColumn (what : String) (d : Nat) : List Draw :=
+  [scalar (what ++ ": random column") (d - 1), wasted (what ++ ": column[0], overwritten by the secret")]
+
+/-- `DealRandom`: a random secret, then `Deal` -/
+def dealRandom (what : String) (d : Nat) : List Draw := scalar (what ++ ": secret") :: dealColumn what d
+
+/-- a sharing of zero under the unanimity structure over the party and its peers (`d = peers + 1`):
+    one fresh coefficient per peer -/
+def zeroSharing : StepNeed :=
+  { once := [wasted "zero sharing: column[0], overwritten by zero"],
+    perPeer := [scalar "zero sharing: coefficient for this peer"] }
+
+def bitLenAux : Nat → Nat → Nat
+  | 0, _ => 0
+  | fuel + 1, x => if x == 0 then 0 else 1 + bitLenAux fuel (x / 2)
+
+/-- `mathutils.CeilLog2` -/
+def ceilLog2 (x : Nat) : Nat := bitLenAux x (x - 1)
+
+/-- Canetti's `rhoLen = ⌈(128 + ⌈log₂ D⌉) / 8⌉` -/
+def rhoLen (d : Nat) : Nat := (128 + ceilLog2 d + 7) / 8
 
 /-! ## The protocols (tables follow the round functions of /repo) -/
 
@@ -171,6 +233,14 @@ def session (ids : List Nat) : Spec where
     (pairsOf ids).map (fun (i, j) => { name := s!"seed.{i}.{j}", dep := .all }) ++
     ids.map (fun i => { name := s!"zero.{i}", dep := .all })
   reads := fun _ => "0SS00"
+  peers := fun _ => ids.length - 1
+  need := fun _ _ => [
+    {},
+    { once := [rawBytes "commitment key" 32, rawBytes "common contribution" 32,
+               rawBytes "witness of the commitment to the common contribution" 32] },
+    { perPeer := [rawBytes "pairwise contribution for this peer" 32,
+                  rawBytes "witness of the commitment to it under this peer's key" 32] },
+    {}, {} ]
 
 def shareVals (ids : List Nat) : List JointVal := ids.map fun i => { name := s!"share.{i}", dep := .all }
 
@@ -179,6 +249,7 @@ def dealer (holders : List Nat) : Spec where
   rounds := []
   joint := [{ name := "pk", dep := .all }] ++ shareVals holders
   reads := fun _ => "S"
+  need := fun d _ => [{ once := dealRandom "key" d }]
 
 /-- Gennaro DKG (pkg/mpc/dkg/gennaro/rounds.go): r1 broadcast = Pedersen vector + batch-Okamoto
     proof (AND-composition, branch commitments sampled concurrently ⇒ `ownSched`), r1 unicast =
@@ -190,6 +261,15 @@ def gennaro (ids : List Nat) : Spec where
     { round := 2, bc := some .own } ]
   joint := [{ name := "pk", dep := .all }] ++ shareVals ids
   reads := fun _ => "0S10"
+  peers := fun _ => ids.length - 1
+  need := fun d _ => [
+    {},
+    -- Pedersen VSS: secret, Deal(secret), DealRandom(blinding); then one Okamoto commitment
+    -- (two nonces) per column of the AND-composition
+    { once := dealRandom "dealt secret" d ++ dealRandom "Pedersen blinding" d ++
+              [scalar "batch-Okamoto nonces (two per column)" (2 * d)] },
+    { once := [scalar "batch-Schnorr nonce"] },
+    {} ]
 
 /-- Canetti DKG: r1 broadcast = commitment; r2 broadcast = opening (vector, Schnorr commitment, rid
     contribution), r2 unicast = share; r3 broadcast = Schnorr response under the challenge bound to
@@ -201,6 +281,15 @@ def canetti (ids : List Nat) : Spec where
     { round := 3, bc := some .all } ]
   joint := [{ name := "pk", dep := .all }] ++ shareVals ids
   reads := fun _ => "0S000"
+  peers := fun _ => ids.length - 1
+  need := fun d _ => [
+    {},
+    { once := dealRandom "dealt secret" d ++
+              [rawBytes "rid contribution rho" (rhoLen d), scalar "batch-Schnorr nonce",
+               rawBytes "witness of the round-1 commitment" 32] },
+    {}, {}, {} ]
+  -- the opened commitment message repeats the (public) session identifier
+  publicLeaves := ["r2.b:/Message/SessionID"]
 
 /-- HJKY zero sharing: r1 broadcast = Feldman vector of a sharing of zero, unicast = share.
     ζᵢ = Σⱼ share_{j→i}. -/
@@ -208,20 +297,38 @@ def hjky (ids : List Nat) : Spec where
   rounds := [{ round := 1, bc := some .own, uc := some .own }]
   joint := ids.map (fun i => { name := s!"zshare.{i}", dep := .all }) ++ [{ name := "zvv", dep := .all }]
   reads := fun _ => "0S0"
+  peers := fun _ => ids.length - 1
+  need := fun d _ => [{}, { once := dealColumn "sharing of zero" d }, {}]
+  -- the verification vector of a sharing of zero starts with the identity (the commitment to 0)
+  publicLeaves := ["r1.b:/verificationVector/verification_vector/data/0/compressedBytes"]
 
 /-- Redistribution (pkg/mpc/redistribute): r1 = HJKY zero sharing among the previous holders;
     r2 = every previous holder re-shares (its additive share + zero share) under the next
-    structure: broadcast vector + unicast sub-shares to the next holders.  The key does not change. -/
-def redistribute (prev next : List Nat) : Spec where
+    structure: broadcast vector + unicast sub-shares to the next holders.  The key does not change.
+    `secretInEveryRow`: every row of the next MSP involves the secret column (threshold structures:
+    Vandermonde rows); otherwise (unanimity, CNF, formulas, hierarchies: unit-vector-like rows) a
+    sub-share may be a fresh coefficient alone, independent of the re-shared value and hence of the
+    other previous holders' streams. -/
+def redistribute (prev next : List Nat) (secretInEveryRow : Bool := true) : Spec where
   rounds :=
     let newcomers := next.filter (!prev.contains ·)
     [ { round := 1, senders := .only prev, rcpts := .only prev, bc := some .own, uc := some .own },
       { round := 1, senders := .only newcomers, bc := some .none },   -- newcomers contribute nothing
-      { round := 2, senders := .only prev, rcpts := .only next, bc := some (.among prev), uc := some (.among prev) },
+      { round := 2, senders := .only prev, rcpts := .only next, bc := some (.among prev),
+        uc := some (if secretInEveryRow then .among prev else .ownMaybe prev) },
       { round := 2, senders := .only newcomers, bc := some .none } ]
   joint := [{ name := "pk", dep := .none, random := false }] ++
     next.map (fun i => { name := s!"share.{i}", dep := .among prev })
   reads := fun id => if prev.contains id then "0SS0" else "0000"
+  peers := fun id => if prev.contains id then prev.length - 1 else 0
+  need := fun d id =>
+    if prev.contains id then
+      [{}, zeroSharing, { once := dealColumn "re-sharing of the additive share" d }, {}]
+    else [{}, {}, {}, {}]
+  -- round 2 repeats public data of the previous epoch; both zero vectors start with the identity
+  publicLeaves := ["r1.b:/ZeroR1/verificationVector/verification_vector/data/0/compressedBytes",
+                   "r2.b:/ZeroVerificationVector/verification_vector/data/0/compressedBytes",
+                   "r2.b:/PrevMSP/*", "r2.b:/PrevVerificationVector/*"]
 
 /-- Lindell22 threshold Schnorr: r1 broadcast = commitment to Rᵢ = kᵢ•g, r1 unicast = zero-sharing
     sub-share; r2 broadcast = opening of Rᵢ with a proof of knowledge bound to the transcript
@@ -233,6 +340,16 @@ def lindell22 (ids : List Nat) (ctorReads : Bool) : Spec where
   joint := ids.map (fun i => { name := s!"R.{i}", owner := i, dep := .own }) ++
     [{ name := "R", dep := .all }, { name := "s", dep := .all }]
   reads := fun _ => if ctorReads then "1S10" else "0S10"
+  peers := fun _ => ids.length - 1
+  need := fun _ _ => [
+    -- BIP-340: the scheme object handed to the cosigner samples 32 bytes of auxiliary randomness
+    -- that threshold signing never uses
+    { once := if ctorReads then [{ what := "BIP-340 aux (unused)", count := 1, size := 32, min := 0 }] else [] },
+    { once := scalar "nonce share k" :: rawBytes "witness of the commitment to R_i" 32 :: zeroSharing.once,
+      perPeer := zeroSharing.perPeer },
+    { once := [scalar "Schnorr proof-of-knowledge nonce"] },
+    {} ]
+  publicLeaves := ["r1.b:/zeroR1/verificationVector/verification_vector/data/0/compressedBytes"]
 
 /-- DKLs23 with the base-OT multiplication (signing_bbot): r1 broadcast = commitment to Rᵢ,
     r1 unicast = first OT message to every other cosigner; r2 broadcast = opening (Rᵢ),
@@ -246,6 +363,20 @@ def dkls23Bbot (ids : List Nat) : Spec where
   joint := ids.map (fun i => { name := s!"R.{i}", owner := i, dep := .own }) ++
     [{ name := "r", dep := .all }, { name := "s", dep := .all }]
   reads := fun _ => "0S110"
+  peers := fun _ => ids.length - 1
+  need := fun _ _ => [
+    {},
+    { once := [scalar "nonce share r", scalar "mask phi", rawBytes "witness of the commitment to R_i" 32],
+      perPeer := [scalar "base-OT sender key a"] },
+    -- Bob of the multiplication with every peer: xi = 416 choice bits, then per OT and per batch
+    -- element (L = 4) a key-agreement scalar and a random POPF point (two field draws)
+    { perPeer := [rawBytes "multiplication choice bits beta (xi/8)" 52,
+                  scalar "OT receiver key b (xi*L)" 1664,
+                  { what := "POPF random point, two field draws each (xi*L)", count := 3328, size := 48, min := 16 }] },
+    { perPeer := [scalar "multiplication check values a-hat" 2] },
+    {} ]
+  -- the public-key share is a function of the key share only
+  publicLeaves := ["r3.b:/pk/compressedBytes"]
 
 /-- DKLs23 with SoftSpoken OT extension (signing_softspoken): rounds 1–2 are the pairwise base OTs;
     the nonce and its commitment are sampled in round 3. -/
@@ -258,6 +389,20 @@ def dkls23Softspoken (ids : List Nat) : Spec where
   joint := ids.map (fun i => { name := s!"R.{i}", owner := i, dep := .own }) ++
     [{ name := "r", dep := .all }, { name := "s", dep := .all }]
   reads := fun _ => "011S10"
+  peers := fun _ => ids.length - 1
+  need := fun _ _ => [
+    {},
+    { perPeer := [scalar "base-OT sender key a"] },
+    -- kappa = 128 base OTs per peer
+    { perPeer := [rawBytes "base-OT choice bits (kappa/8)" 16,
+                  scalar "OT receiver key b (kappa)" 128,
+                  { what := "POPF random point, two field draws each (kappa)", count := 256, size := 48, min := 16 }] },
+    { once := [scalar "nonce share r", scalar "mask phi", rawBytes "witness of the commitment to R_i" 32],
+      perPeer := [rawBytes "multiplication choice bits beta (xi/8)" 64,
+                  rawBytes "OT-extension consistency bits sigma" 16] },
+    { perPeer := [scalar "multiplication check values a-hat" 2] },
+    {} ]
+  publicLeaves := ["r4.b:/pk/compressedBytes"]
 
 /-- Boldyreva threshold BLS: deterministic, no stream. -/
 def boldyreva : Spec where
@@ -277,23 +422,57 @@ def lindell17 (primary secondary : Nat) : Spec where
     { round := 4, senders := .only [secondary], rcpts := .only [primary], uc := some .pair } ]
   joint := [{ name := "r", dep := .all }, { name := "s", dep := .all }]
   reads := fun id => if id == primary then "0S00" else "0SS"
+  peers := fun _ => 1
+  need := fun _ id =>
+    if id == primary then
+      -- steps of the primary: constructor, rounds 1, 3, 5
+      [{}, { once := [scalar "nonce share k1", scalar "Fischlin commitment nonces (rho = 16)" 16,
+                      rawBytes "witness of the commitment to R_1" 32] }, {}, {}]
+    else
+      -- steps of the secondary: constructor, rounds 2, 4
+      [{}, { once := [scalar "nonce share k2", scalar "Fischlin commitment nonces (rho = 16)" 16] },
+       { once := [rawBytes "mask rho in Z_(q^2)" 64,
+                  { what := "Paillier encryption nonce below the 3072-bit modulus (rejection sampling)",
+                    count := 1, size := 384, min := 384, lower := true }] }]
+  -- the ciphertext encoding repeats the public Paillier moduli
+  publicLeaves := ["r4.u:/c3/c/arithmetic/*", "r4.u:/c3/c/n/*", "r4.u:/c3/c/v/modulus/*"]
 
-/-- the ids inside an access-structure spec `th:<t>:<id,id,…>` -/
+/-- the numeric tokens of a text in which `,` `|` `(` `)` separate -/
+def numTokens (s : String) : List Nat :=
+  ((s.map fun c => if c == '|' || c == '(' || c == ')' then ',' else c).splitOn ",").filterMap String.toNat?
+
+/-- the holders named by an access-structure spec of the harness (`th:<t>:<ids>`, `un:<ids>`,
+    `cnf:<ids>|<ids>|…`, `hier:<t>:<ids>|<t>:<ids>|…`, `bool:<expr>`), without repetitions -/
 def specIds (s : String) : List Nat :=
-  match s.splitOn ":" with
-  | [_, _, ids] => (ids.splitOn ",").filterMap String.toNat?
-  | _ => []
+  let ids := match s.splitOn ":" with
+    | "th" :: _ :: rest => numTokens (":".intercalate rest)
+    | "hier" :: rest =>
+      ((":".intercalate rest).splitOn "|").flatMap fun (level : String) =>
+        match level.splitOn ":" with
+        | [_, xs] => numTokens xs
+        | _ => []
+    | _ :: rest => numTokens (":".intercalate rest)   -- un / cnf / bool (a gate name like th2 is not numeric)
+    | [] => []
+  ids.eraseDups
+
+/-- structures whose MSP gives several holders the SAME row (replicated pieces: CNF, the `or` gates
+    of a formula): there, and only there, the shares of two recipients may coincide -/
+def replicatedRows (spec : String) : Bool := spec.startsWith "cnf:" || spec.startsWith "bool:"
 
 /-- look a protocol up by the name and configuration token of the harness line -/
 def lookup (name cfg : String) (ids : List Nat) : Option Spec :=
   let parts := cfg.splitOn ";"
+  let shared (sp : Spec) (which : Nat) (pats : List String) : Spec :=
+    if replicatedRows (parts.getD which "") then { sp with sharedLeaves := pats } else sp
   match name with
   | "session" => some (session ids)
   | "dealer" => some (dealer (specIds (parts.getD 1 "")))
-  | "gennaro" => some (gennaro ids)
-  | "canetti" => some (canetti ids)
-  | "hjky" => some (hjky ids)
-  | "redistribute" => some (redistribute (specIds (parts.getD 1 "")) (specIds (parts.getD 2 "")))
+  | "gennaro" => some (shared (gennaro ids) 1 ["/share/blinding/#/r/fieldBytes", "/share/secret/#/m/fieldBytes"])
+  | "canetti" => some (shared (canetti ids) 1 ["/Share/value/#/fieldBytes"])
+  | "hjky" => some (shared (hjky ids) 1 ["/zeroShare/value/#/fieldBytes"])
+  | "redistribute" =>
+    some (shared (redistribute (specIds (parts.getD 1 "")) (specIds (parts.getD 2 "")) ((parts.getD 2 "").startsWith "th:")) 2
+      ["/NextShareContribution/value/#/fieldBytes"])
   | "lindell22-vanilla" => some (lindell22 ids false)
   | "lindell22-bip340" => some (lindell22 ids true)
   | "dkls23-bbot" => some (dkls23Bbot ids)
@@ -310,7 +489,7 @@ def lookup (name cfg : String) (ids : List Nat) : Option Spec :=
 
 /-- every table known to the model, on a sample party set (used by the structural theorems) -/
 def allSpecs (ids : List Nat) : List Spec :=
-  [session ids, dealer ids, gennaro ids, canetti ids, hjky ids, redistribute ids ids,
+  [session ids, dealer ids, gennaro ids, canetti ids, hjky ids, redistribute ids ids, redistribute ids ids false,
    lindell22 ids false, lindell22 ids true, dkls23Bbot ids, dkls23Softspoken ids, boldyreva,
    lindell17 (ids.headD 1) (ids.getLastD 2)]
 
